@@ -50,6 +50,11 @@ def handle (j : Json) : R Json := do
     match loadSection table cls kv with
     | .ok _ => .ok (obj [("ok", Json.bool true)])
     | .error e => .ok (obj [("err", encErr e)])
+  | "apd" =>
+    let g ← asOpt asRat (← fld j "gain")
+    let p ← asOpt asRat (← fld j "prv")
+    let c ← asOpt asRat (← fld j "cv")
+    .ok (obj [("accepted", Json.bool (apdSpec g p c))])
   | _ => .error s!"unknown op {op}"
 
 end PyxelModel.C12
